@@ -227,7 +227,11 @@ func (e *Exec) canInline(f *ssa.Function) bool {
 }
 
 func (e *Exec) inlineCall(callee *ssa.Function, args []Val, bindings []Val, in ssa.Instruction) Val {
-	sub := &Exec{P: e.P, vc: e.vc, fn: callee, root: e.root, depth: e.depth + 1, opts: e.opts,
+	top := e.top
+	if top == nil {
+		top = e
+	}
+	sub := &Exec{P: e.P, vc: e.vc, fn: callee, root: e.root, depth: e.depth + 1, opts: e.opts, top: top,
 		regs: map[ssa.Value]Val{}, guard: map[*ssa.BasicBlock]*Term{}, out: map[*ssa.BasicBlock]*State{},
 		brCond: map[*ssa.BasicBlock]*Term{}, st: e.st, g: e.g, silent: e.silent, st0: e.st0, tagFacts: e.tagFacts,
 		onAcquire: e.onAcquire, onAccess: e.onAccess, allocOn: e.allocOn, inSize: e.inSize}
